@@ -185,7 +185,7 @@ func runCorrupt(sink *Sink, work string, seed uint64, shard, nshard, n int, full
 		f, err := os.Open(in)
 		if err != nil {
 			fmt.Fprintln(os.Stderr, err)
-			os.Exit(2)
+			os.Exit(3)
 		}
 		rd := bufio.NewReaderSize(f, 1<<20)
 		for {
@@ -237,7 +237,7 @@ func runCorrupt(sink *Sink, work string, seed uint64, shard, nshard, n int, full
 		set, err := readDir(base)
 		if err != nil {
 			fmt.Fprintln(os.Stderr, "infra:", err)
-			os.Exit(2)
+			os.Exit(3)
 		}
 		cleanLog, frames, ends, clean := parseSet(set.Names, set.Data)
 		okh, nh := matchHist(cleanLog, wr.Hist)
@@ -281,7 +281,7 @@ func runCorrupt(sink *Sink, work string, seed uint64, shard, nshard, n int, full
 					data[name] = mut
 					if err := writeImage(img, set.Names, data); err != nil {
 						fmt.Fprintln(os.Stderr, "infra:", err)
-						os.Exit(2)
+						os.Exit(3)
 					}
 					rt, field := classify(frames[name], ends[name], x)
 					where := fmt.Sprintf("file#%d/%d", fi+1, len(set.Names))
@@ -402,7 +402,7 @@ func runSnap(sink *Sink, work string, seed uint64, shard, nshard, n int, trace b
 			}
 			if err := ss.SaveSnap(s); err != nil {
 				fmt.Fprintln(os.Stderr, "infra: SaveSnap:", err)
-				os.Exit(2)
+				os.Exit(3)
 			}
 			recs = append(recs, snapRec{name: fmt.Sprintf("%016x-%016x.snap", term, index), s: s})
 		}
@@ -412,7 +412,7 @@ func runSnap(sink *Sink, work string, seed uint64, shard, nshard, n int, trace b
 			b, err := os.ReadFile(filepath.Join(dir, rc.name))
 			if err != nil {
 				fmt.Fprintln(os.Stderr, "infra: snapshot file missing:", err)
-				os.Exit(2)
+				os.Exit(3)
 			}
 			files[rc.name] = b
 			names = append(names, rc.name)
@@ -620,4 +620,146 @@ func snapField(b []byte, x int) string {
 		}
 	}
 	return "?"
+}
+
+// ---------------------------------------------------------------- replay of Snap.tla scenarios (binding B1 for snapshot files)
+
+type snapScenFile struct {
+	St    string `json:"st"`
+	Inwal bool   `json:"inwal"`
+}
+type snapScen struct {
+	Files  []snapScenFile `json:"files"`
+	Usewal bool           `json:"usewal"`
+	Result int            `json:"result"`
+	Broken []int          `json:"broken"`
+}
+
+func runSnapReplay(sink *Sink, work string, seed uint64, in string) {
+	f, err := os.Open(in)
+	if err != nil {
+		fmt.Fprintln(os.Stderr, err)
+		os.Exit(3)
+	}
+	defer f.Close()
+	rd := bufio.NewReaderSize(f, 1<<20)
+	dir := filepath.Join(work, "snapr")
+	n := 0
+	for {
+		line, rerr := rd.ReadBytes('\n')
+		if len(line) > 1 {
+			var sc snapScen
+			if json.Unmarshal(line, &sc) != nil {
+				fmt.Fprintln(os.Stderr, "bad snap scenario")
+				os.Exit(3)
+			}
+			n++
+			r := &rng{s: seed*99991 + uint64(n)}
+			os.RemoveAll(dir)
+			os.MkdirAll(dir, 0700)
+			ss := snap.New(lg, dir)
+			var recs []snapRec
+			var walSnaps []walpb.Snapshot
+			for i, sf := range sc.Files {
+				s := raftpb.Snapshot{Data: r.nonZero(1 + r.intn(900)), Metadata: raftpb.SnapshotMetadata{Index: uint64(10 * (i + 1)), Term: uint64(1 + i/2), ConfState: raftpb.ConfState{Voters: []uint64{1}}}}
+				if err := ss.SaveSnap(s); err != nil {
+					fmt.Fprintln(os.Stderr, "infra: SaveSnap:", err)
+					os.Exit(3)
+				}
+				name := fmt.Sprintf("%016x-%016x.snap", s.Metadata.Term, s.Metadata.Index)
+				recs = append(recs, snapRec{name: name, s: s})
+				if sf.Inwal {
+					walSnaps = append(walSnaps, walpb.Snapshot{Index: s.Metadata.Index, Term: s.Metadata.Term})
+				}
+				p := filepath.Join(dir, name)
+				b, _ := os.ReadFile(p)
+				switch sf.St {
+				case "torn":
+					if r.intn(2) == 0 || len(b) <= 512 {
+						b = b[:r.intn(len(b))]
+					} else {
+						sectorZero(b, r.intn((len(b)+511)/512), 0, nil)
+					}
+					os.WriteFile(p, b, 0600)
+				case "flip":
+					b[r.intn(len(b))] ^= masks[r.intn(3)]
+					os.WriteFile(p, b, 0600)
+				}
+			}
+			sink.stats.Cases++
+			var got *raftpb.Snapshot
+			var lerr error
+			pan := ""
+			func() {
+				defer func() {
+					if p := recover(); p != nil {
+						pan = fmt.Sprint(p)
+					}
+				}()
+				s2 := snap.New(lg, dir)
+				if sc.Usewal {
+					if walSnaps == nil {
+						walSnaps = []walpb.Snapshot{}
+					}
+					got, lerr = s2.LoadNewestAvailable(walSnaps)
+				} else {
+					got, lerr = s2.Load()
+				}
+			}()
+			sink.stats.Reads++
+			id := fmt.Sprintf("snapscen%d", n)
+			if pan != "" {
+				sink.finding(Finding{ID: id, Class: "violation", Kind: "panic", Detail: "snapshot load panicked: " + pan, Sig: "snapreplay/panic", Scenario: sc})
+				continue
+			}
+			// contract
+			want := 0
+			for i := len(sc.Files); i >= 1; i-- {
+				if sc.Files[i-1].St == "ok" && (!sc.Usewal || sc.Files[i-1].Inwal) {
+					want = i
+					break
+				}
+			}
+			real := 0
+			if lerr == nil {
+				real = -1
+				for i := range recs {
+					if sameSnap(got, &recs[i].s) {
+						real = i + 1
+					}
+				}
+			}
+			switch {
+			case real == -1:
+				sink.finding(Finding{ID: id, Class: "violation", Kind: "corrupt-accepted", Detail: "a snapshot was returned that equals none of the saved ones", Sig: "snapreplay/corrupt-accepted", Scenario: sc})
+			case real != want && real > 0 && sc.Files[real-1].St != "ok":
+				sink.label("snap.damage-harmless") // the damaged file still decodes to what was saved
+			case real != want:
+				kind := "wrong-fallback"
+				if real == 0 {
+					kind = "no-fallback"
+				}
+				sink.finding(Finding{ID: id, Class: "violation", Kind: kind, Detail: fmt.Sprintf("loaded file #%d, the newest intact candidate is #%d (0 = none)", real, want), Sig: "snapreplay/" + kind, Scenario: sc})
+			}
+			if real != sc.Result && real >= 0 && !(real > 0 && sc.Files[real-1].St != "ok") {
+				sink.finding(Finding{ID: id, Class: "divergence", Kind: "prediction", Detail: fmt.Sprintf("model result %d real %d", sc.Result, real), Sig: "snapreplay/prediction", Scenario: sc})
+			}
+			// renamed files
+			var broken []int
+			for i, rc := range recs {
+				if _, e := os.Stat(filepath.Join(dir, rc.name+".broken")); e == nil {
+					broken = append(broken, i+1)
+				}
+			}
+			if fmt.Sprint(broken) != fmt.Sprint(sc.Broken) && !(len(broken) == 0 && len(sc.Broken) == 0) {
+				sink.finding(Finding{ID: id, Class: "divergence", Kind: "prediction", Detail: fmt.Sprintf("model renames %v, real renames %v", sc.Broken, broken), Sig: "snapreplay/broken-set", Scenario: sc})
+			}
+			sink.label(fmt.Sprintf("snapreplay.result=%d", real))
+			sink.sample(map[string]interface{}{"snap_scenario": sc, "real_result": real, "real_broken": broken})
+		}
+		if rerr != nil {
+			break
+		}
+	}
+	os.RemoveAll(dir)
 }
